@@ -140,14 +140,15 @@ def run(R, tier, seed, driver_ok):
                     R.violation(f'{name}/rotation-raises-{type(e).__name__}', f'{name}: rotation run raised {type(e).__name__}: {str(e)[:100]}', case)
             # ---- scaling
             if name in ('Covariance', 'RCA'):
-                c = float(rng.choice([0.25, 4.0, 8.0, 2.0 ** -30, 2.0 ** -40, 2.0 ** 20]))
+              # one moderate factor and, on every run, units of very small and very large size (exact powers of two)
+              for c in (float(rng.choice([0.25, 4.0, 8.0])), 2.0 ** -30, 2.0 ** -40, 2.0 ** 20):
                 case = {'est': name, 'relation': 'scaling', 'X': X, 'c': c}
                 e2 = fit_on(name, params, X * c, y, build, sd)
-                check('scaling', e2, Qp * c, d0, 1e-9, case) if False else None
-                R.case(('c19', name, 'scaling', X.tobytes().hex()[:40]), True, branch='scaling')
+                R.case(('c19', name, 'scaling', c, X.tobytes().hex()[:40]), True, branch='scaling')
                 got = e2.pair_distance(Qp)          # same query points, features scaled by c ⇒ distances × 1/c
                 if np.abs(got - d0 / c).max() > 1e-9 * np.abs(d0 / c).max():
                     R.violation(f'{name}/scaling', f'{name}: scaling all features by {c} does not scale distances by 1/{c}', case)
+                    break
             # ---- model side: covariance under translation (Float twin)
             if name == 'Covariance' and driver_ok:
                 lines.append(f'cov {n} {d} {bits(X)}'); meta.append(('cov-translate', len(lines)))
